@@ -762,7 +762,8 @@ def r12h(R):
             sup = [m for m in cfg.nodes for c in m.calls()
                    if isinstance(c.func, ast.Attribute) and c.func.attr == '__init__'
                    and (norm(c.func.value).startswith('super()')
-                        or norm(c.func.value) in [b.name for b in bases])]
+                        or norm(c.func.value).split('.')[-1] in [b.name for b in bases]
+                        or any(t.cls in bases for t in A.callees(init, c)))]
             p = cfg.find_path([cfg.entry], lambda m: m is cfg.exit, avoid=sup) \
                 if sup else []
             R.check(init, '%s.__init__ -> super().__init__()' % cls.name,
@@ -839,9 +840,11 @@ def r12i(R):
     for s in walk_own(gl.node):
         if isinstance(s, ast.Assign) and isinstance(s.value, ast.Call) \
                 and isinstance(s.value.func, ast.Attribute) \
-                and s.value.func.attr == 'get_value' and len(s.value.args) == 2 \
-                and isinstance(s.value.args[1], ast.Constant) \
-                and s.value.args[1].value is None:
+                and s.value.func.attr == 'get_value' and (
+                    len(s.value.args) == 1          # the default default
+                    or (len(s.value.args) == 2
+                        and isinstance(s.value.args[1], ast.Constant)
+                        and s.value.args[1].value is None)):
             maybe |= set(norm(t) for t in s.targets)
     for node in cfg.nodes:
         if node.kind == 'cond' and isinstance(node.ast, ast.Compare) and \
